@@ -28,6 +28,9 @@ type world struct {
 	o     *vlib.Outcome
 	// hooks lets a property install cron hooks on every state it builds.
 	hooks func(core.State)
+	// eventCtx, if set, is the context checkEvent passes to ProcessEvent
+	// (actions that use Env.AddFact etc. need a context with a location).
+	eventCtx *core.Context
 }
 
 func init() {
@@ -613,7 +616,11 @@ var specials = []string{"?event", "?location", "?ruleId"}
 func (w *world) checkEvent(name string, event M, when string) eventCmp {
 	var ec eventCmp
 	order, ok := w.ancestors(name)
-	work, cond := w.locs[name].ProcessEvent(newCtx(), core.Map(gen.CopyMap(event)))
+	ectx := w.eventCtx
+	if ectx == nil {
+		ectx = newCtx()
+	}
+	work, cond := w.locs[name].ProcessEvent(ectx, core.Map(gen.CopyMap(event)))
 	if !ok {
 		ec.Unspec = true
 		return ec
